@@ -676,8 +676,11 @@ class _SetOperation(Selectable, Term):  # type:ignore[misc]
             )
 
         if self._orderbys:
-            # ORDER BY of a set operation names result columns: never qualified by an enclosing query's namespace
-            querystring += self._orderby_sql(ctx.copy(with_namespace=False, with_alias=False))
+            # ORDER BY of a set operation names result columns: never qualified by an enclosing query's namespace,
+            # nor bracketed because the set operation stands under a NOT
+            querystring += self._orderby_sql(
+                ctx.copy(with_namespace=False, with_alias=False, subcriterion=False)
+            )
 
         # row limiting follows the dialect of the base query's builder class (LIMIT/OFFSET, OFFSET..FETCH NEXT, ...)
         pager = copy(self.base_query)
